@@ -33,6 +33,8 @@ struct Opts {
     file: Option<String>,
     runs: Option<usize>,
     budget: Option<Duration>,
+    alt_bin: Option<PathBuf>,
+    alt_repo: Option<String>,
 }
 
 fn parse_opts() -> Opts {
@@ -49,6 +51,8 @@ fn parse_opts() -> Opts {
         file: None,
         runs: std::env::var("VERIF_RUNS").ok().and_then(|s| s.parse().ok()),
         budget: std::env::var("VERIF_BUDGET_S").ok().and_then(|s| s.parse().ok()).map(Duration::from_secs),
+        alt_bin: std::env::var("VERIF_ALT_BIN").ok().filter(|s| !s.is_empty()).map(PathBuf::from),
+        alt_repo: std::env::var("VERIF_ALT_REPO").ok().filter(|s| !s.is_empty()),
     };
     let mut i = 1;
     while i < args.len() {
@@ -167,6 +171,7 @@ fn setup(o: &Opts, scratch: &Path, only_complete_reference: bool) -> Result<Ctx,
         ops: vec![Op::Open { slot: 0, mode: Mode::Disk, plan: Plan::default() }],
         expected_docs,
         repo: o.repo.clone(),
+        alt: false,
     };
     let out = launcher.simnode(&gold, &scratch.join("gold"), "gold", &session, 0);
     if let Some(e) = out.harness_error() {
@@ -202,7 +207,39 @@ fn setup(o: &Opts, scratch: &Path, only_complete_reference: bool) -> Result<Ctx,
     let gold_index = scratch.join("gold-index");
     dirstate::copy_dir(&gold.index(), &gold_index).unwrap_or_else(|e| harness_fail(&e.to_string()));
     let reference = Reference { meta_text: info.meta_text.clone().unwrap_or_default(), version, hash, gold_index, foreign_index: foreign, foreign_schema_index: foreign_schema };
+    let mut alt = None;
+    if let (Some(bin), Some(repo)) = (&o.alt_bin, &o.alt_repo) {
+        if bin.join("simnode").is_file() {
+            let ashipped = shipped::load(repo).unwrap_or_else(|e| harness_fail(&format!("alternative data: {e}")));
+            let alauncher = Launcher { bin_dir: bin.clone(), allowed: allowed_cpus(), child_timeout: Duration::from_secs(180) };
+            let agold = Paths::new(scratch.join("alt-gold").join("xdg"));
+            dirstate::wipe(&agold).unwrap_or_else(|e| harness_fail(&e.to_string()));
+            let asession = Session { cpus: 1, faults: vec![], ops: vec![Op::Open { slot: 0, mode: Mode::Disk, plan: Plan::default() }], expected_docs: ashipped.constants.len(), repo: repo.clone(), alt: true };
+            let aout = alauncher.simnode(&agold, &scratch.join("alt-gold"), "gold", &asession, 0);
+            let ainfo = dirstate::inspect(&agold, &ashipped);
+            let (av, ah) = match &ainfo.meta {
+                dirstate::MetaInfo::Parsed { version: Some(v), hash: Some(h) } => (v.clone(), h.clone()),
+                _ => (String::new(), String::new()),
+            };
+            if aout.harness_error().is_none() && aout.exit == (Exit::Code { code: 0 }) {
+                let agold_index = scratch.join("alt-gold-index");
+                dirstate::copy_dir(&agold.index(), &agold_index).unwrap_or_else(|e| harness_fail(&e.to_string()));
+                let areference = Reference {
+                    meta_text: ainfo.meta_text.clone().unwrap_or_default(),
+                    version: av,
+                    hash: ah,
+                    gold_index: agold_index,
+                    foreign_index: reference.foreign_index.clone(),
+                    foreign_schema_index: reference.foreign_schema_index.clone(),
+                };
+                alt = Some(Box::new(Alt { launcher: alauncher, repo: repo.clone(), shipped: ashipped, reference: areference }));
+            } else {
+                println!("simctl: note: the alternative build did not complete a clean start; two-build histories are skipped");
+            }
+        }
+    }
     Ok(Ctx {
+        alt,
         launcher,
         repo: o.repo.clone(),
         shipped,
@@ -298,15 +335,15 @@ fn absorb(st: &mut Stats, ctx: &Ctx, idx: usize, h: &History, trace: &Trace, vs:
     let mut nontrivial = false;
     for (i, s) in h.steps.iter().enumerate() {
         let Some(so) = trace.steps.get(i) else { continue };
-        st.dir_classes.insert(so.dir.class(&ctx.reference));
+        st.dir_classes.insert(so.dir.class(ctx.side(so.alt).1));
         match s {
             Step::Fabricate { state } => {
-                outcome.push(json!({"step": i, "fabricated": so.dir.class(&ctx.reference)}));
+                outcome.push(json!({"step": i, "fabricated": so.dir.class(ctx.side(so.alt).1)}));
                 if state.data_dir {
                     nontrivial = nontrivial || h.property == "C15";
                 }
             }
-            Step::Damage { .. } => outcome.push(json!({"step": i, "damaged_to": so.dir.class(&ctx.reference)})),
+            Step::Damage { .. } => outcome.push(json!({"step": i, "damaged_to": so.dir.class(ctx.side(so.alt).1)})),
             Step::Start { session } => {
                 st.starts += 1;
                 let Some(c) = &so.child else { continue };
@@ -320,11 +357,11 @@ fn absorb(st: &mut Stats, ctx: &Ctx, idx: usize, h: &History, trace: &Trace, vs:
                     fired += 1;
                     *st.faults_fired.entry(kind.clone()).or_default() += 1;
                     st.fault_sites_fired.insert(format!("{kind}@{point}"));
-                    let prior = if i == 0 { "meta[absent] index[absent]".to_string() } else { trace.steps[i - 1].dir.class(&ctx.reference) };
+                    let prior = if i == 0 { "meta[absent] index[absent]".to_string() } else { trace.steps[i - 1].dir.class(ctx.side(trace.steps[i - 1].alt).1) };
                     st.cells_fired.insert(format!("{prior} x {kind}@{point}"));
                 } else if configured > 0 {
                     st.faults_not_reached += 1;
-                    let prior = if i == 0 { "meta[absent] index[absent]".to_string() } else { trace.steps[i - 1].dir.class(&ctx.reference) };
+                    let prior = if i == 0 { "meta[absent] index[absent]".to_string() } else { trace.steps[i - 1].dir.class(ctx.side(trace.steps[i - 1].alt).1) };
                     for f in &session.faults {
                         if let Fault::Kill { point, .. } | Fault::Fail { point, .. } = f {
                             st.cells_unreachable.insert(format!("{prior} x {point}"));
@@ -392,7 +429,7 @@ fn absorb(st: &mut Stats, ctx: &Ctx, idx: usize, h: &History, trace: &Trace, vs:
                         _ => {}
                     }
                 }
-                outcome.push(json!({"step": i, "start": if label.is_empty() { "undisturbed".to_string() } else { label }, "fired": c.fault_fired().map(|f| format!("{}@{}#{}", f.0, f.1, f.2)), "exit": c.exit, "directory_after": so.dir.class(&ctx.reference)}));
+                outcome.push(json!({"step": i, "start": if label.is_empty() { "undisturbed".to_string() } else { label }, "fired": c.fault_fired().map(|f| format!("{}@{}#{}", f.0, f.1, f.2)), "exit": c.exit, "directory_after": so.dir.class(ctx.side(so.alt).1)}));
             }
             Step::Cli { query, env, .. } => {
                 st.cli_runs += 1;
@@ -426,7 +463,7 @@ fn absorb(st: &mut Stats, ctx: &Ctx, idx: usize, h: &History, trace: &Trace, vs:
                             *st.probes.entry("cli-printed-a-truncated-decimal".into()).or_default() += 1;
                         }
                     }
-                    outcome.push(json!({"step": i, "any": query, "exit": c.exit, "stdout": c.stdout.chars().take(160).collect::<String>(), "directory_after": so.dir.class(&ctx.reference)}));
+                    outcome.push(json!({"step": i, "any": query, "exit": c.exit, "stdout": c.stdout.chars().take(160).collect::<String>(), "directory_after": so.dir.class(ctx.side(so.alt).1)}));
                 }
             }
         }
@@ -614,7 +651,7 @@ fn cmd_run(o: &Opts) -> i32 {
                     property: "C15".into(),
                     seed: 0,
                     label: "clean first start".into(),
-                    steps: vec![Step::Start { session: Session { cpus: 1, faults: vec![], ops: vec![Op::Open { slot: 0, mode: Mode::Disk, plan: Plan::default() }], expected_docs: 0, repo: String::new() } }],
+                    steps: vec![Step::Start { session: Session { cpus: 1, faults: vec![], ops: vec![Op::Open { slot: 0, mode: Mode::Disk, plan: Plan::default() }], expected_docs: 0, repo: String::new(), alt: false } }],
                 };
                 let v = Violation { property: "C15".into(), clause: "C15.clean-start".into(), step: 0, detail: why.clone(), focus: vec![], signature: "C15.clean-start".into() };
                 let path = write_replay(o, &h, &v, json!({"note": "reference start failed; not minimised"}));
@@ -660,7 +697,11 @@ fn cmd_run(o: &Opts) -> i32 {
                 if let Ok(v) = serde_json::from_str::<Value>(&t) {
                     if v.get("property").and_then(|p| p.as_str()) == Some(prop) {
                         if let Some(h) = v.get("history").and_then(|h| serde_json::from_value::<History>(h.clone()).ok()) {
-                            corpus.push(h);
+                            // histories that switch between two builds need the alternative build
+                            let needs_alt = h.steps.iter().any(|s| matches!(s, Step::Start { session } if session.alt));
+                            if !needs_alt || ctx.alt.is_some() {
+                                corpus.push(h);
+                            }
                         }
                     }
                 }
@@ -757,7 +798,49 @@ fn cmd_run(o: &Opts) -> i32 {
             n_sys = sys.len();
             collect(&mut st, &mut found, &sys);
         }
-        extra = json!({"syscall_level_histories": n_sys, "syscall_injector": if strace_ok { "strace -f -e inject=<call>:signal=SIGKILL|error=<errno>:when=K around the simnode child" } else { "skipped: strace not available" },
+        // phase 5: the same code built with other embedded data ("written for other data" for real)
+        let mut n_two = 0;
+        let mut two_note = "skipped: no alternative build was provided (./check C15 thorough builds one)".to_string();
+        if let Some(alt) = &ctx.alt {
+            let same_hash = alt.reference.hash == ctx.reference.hash;
+            two_note = format!(
+                "alternative build with {} constants whose asset files have the same names and sizes but other content; its hash {} the main build's",
+                alt.shipped.constants.len(),
+                if same_hash { "EQUALS" } else { "differs from" }
+            );
+            let mut two = Vec::new();
+            let sess = |alt: bool, faults: Vec<Fault>, mem_first: bool| {
+                let mut s = gen::c15_session_ordered(&ctx, faults, subset.clone(), mem_first);
+                s.alt = alt;
+                Step::Start { session: s }
+            };
+            let mk = |label: String, steps: Vec<Step>, n: usize| History { property: "C15".into(), seed: derive(o.seed, "C15-two", n as u64), label, steps };
+            for first_alt in [false, true] {
+                let (a, b) = if first_alt { ("other build", "this build") } else { ("this build", "other build") };
+                two.push(mk(format!("{a} then {b}"), vec![sess(first_alt, vec![], false), sess(!first_alt, vec![], false), sess(!first_alt, vec![], true)], two.len()));
+                two.push(mk(format!("{a}, {b}, {a} again"), vec![sess(first_alt, vec![], false), sess(!first_alt, vec![], false), sess(first_alt, vec![], false), sess(first_alt, vec![], false)], two.len()));
+                // the second build's rebuild interrupted at every hook point it reaches
+                let pts: Vec<(String, usize)> = reached.iter().find(|r| r.iter().any(|(p, _)| p == "rebuild.before_commit")).cloned().unwrap_or_default();
+                for (p, count) in &pts {
+                    for k in gen::k_samples(&ctx, p, *count, false) {
+                        for flavour in 0..2 {
+                            let f = if flavour == 0 { Fault::Kill { point: p.clone(), k } } else { Fault::Fail { point: p.clone(), k, interrupted: false } };
+                            if quick && flavour == 1 {
+                                continue;
+                            }
+                            let lab = gen::fault_label(&f);
+                            two.push(mk(format!("{a}, then {b} with {lab}, then {b}"), vec![sess(first_alt, vec![], false), sess(!first_alt, vec![f.clone()], false), sess(!first_alt, vec![], two.len() % 2 == 1), sess(!first_alt, vec![], false)], two.len()));
+                            if flavour == 0 {
+                                two.push(mk(format!("{a}, then {b} with {lab}, then back to {a}"), vec![sess(first_alt, vec![], false), sess(!first_alt, vec![f], false), sess(first_alt, vec![], false), sess(!first_alt, vec![], false)], two.len()));
+                            }
+                        }
+                    }
+                }
+            }
+            n_two = two.len();
+            collect(&mut st, &mut found, &two);
+        }
+        extra = json!({"two_build_histories": n_two, "two_build": two_note, "syscall_level_histories": n_sys, "syscall_injector": if strace_ok { "strace -f -e inject=<call>:signal=SIGKILL|error=<errno>:when=K around the simnode child" } else { "skipped: strace not available" },
             "listed_states": states.len(), "undisturbed_state_probes": probes.len(), "state_x_crash_point_cells": n_cells, "seeded_deeper_histories": n_random,
             "exhaustive_over": "every listed state class x every hook point its recovery reaches x kill and fail (all sampled k per multi-hit point); other torn lengths / garbage kinds with a seeded sample of sites"});
     } else {
@@ -955,7 +1038,7 @@ fn cmd_replay(o: &Opts) -> i32 {
             ),
             Step::Cli { query, .. } => format!("any {query:?} -> {:?}", so.child.as_ref().map(|c| c.exit.clone())),
         };
-        println!("step {i}: {what}; directory now {}", so.dir.class(&ctx.reference));
+        println!("step {i}: {what}; directory now {}", so.dir.class(ctx.side(so.alt).1));
     }
     let same: Vec<&Violation> = vs.iter().filter(|x| clause.is_empty() || x.clause == clause).collect();
     if let Some(x) = same.first() {
@@ -1020,12 +1103,91 @@ fn cmd_determinism(o: &Opts) -> i32 {
     }
 }
 
+/// Write a copy of `<repo>/db` to `dst` in which every fact asset has the same name and the same
+/// size but other content (one letter of three descriptions changed), for the two-build histories.
+fn cmd_mkdata(o: &Opts) -> i32 {
+    use std::io::{Read, Write};
+    let args: Vec<String> = std::env::args().skip(2).collect();
+    if args.len() != 2 {
+        harness_fail("usage: simctl mkdata <repo> <dst-db-dir>");
+    }
+    let _ = o;
+    let src = Path::new(&args[0]).join("db");
+    let dst = Path::new(&args[1]);
+    std::fs::create_dir_all(dst).unwrap_or_else(|e| harness_fail(&e.to_string()));
+    let mut altered = 0;
+    let mut names: Vec<String> = std::fs::read_dir(&src).unwrap_or_else(|e| harness_fail(&e.to_string())).flatten().map(|e| e.file_name().to_string_lossy().to_string()).collect();
+    names.sort();
+    for n in names {
+        let orig = std::fs::read(src.join(&n)).unwrap_or_else(|e| harness_fail(&e.to_string()));
+        let mut out = orig.clone();
+        if n.ends_with(".bin.gz") && n != "sources.bin.gz" {
+            let mut raw = Vec::new();
+            flate2::read::GzDecoder::new(&orig[..]).read_to_end(&mut raw).unwrap_or_else(|e| harness_fail(&e.to_string()));
+            // change letters inside description strings, in place, keeping every length
+            for attempt in 0..40u8 {
+                let mut r = raw.clone();
+                let needle = b"description";
+                let mut hits = 0;
+                let mut i = 0;
+                while i + needle.len() + 8 < r.len() && hits < 3 {
+                    if &r[i..i + needle.len()] == needle {
+                        // the text of the description follows its CBOR string header
+                        let from = i + needle.len() + 3 + (attempt as usize % 5);
+                        if let Some(j) = (from..(from + 12).min(r.len())).find(|j| r[*j].is_ascii_lowercase()) {
+                            r[j] = if r[j] == b'z' { b'a' } else { r[j] + 1 };
+                            hits += 1;
+                            i += 4000 + attempt as usize * 37;
+                            continue;
+                        }
+                    }
+                    i += 1;
+                }
+                if hits == 0 {
+                    break;
+                }
+                let mut enc = flate2::GzBuilder::new().write(Vec::new(), flate2::Compression::best());
+                enc.write_all(&r).unwrap();
+                let z = enc.finish().unwrap();
+                if z.len() <= orig.len() {
+                    let pad = orig.len() - z.len();
+                    let z = if pad == 0 {
+                        z
+                    } else {
+                        // a gzip header comment of pad-1 bytes plus its terminator
+                        let mut enc = flate2::GzBuilder::new().comment(vec![b'v'; pad - 1]).write(Vec::new(), flate2::Compression::best());
+                        enc.write_all(&r).unwrap();
+                        enc.finish().unwrap()
+                    };
+                    if z.len() == orig.len() {
+                        out = z;
+                        altered += 1;
+                        break;
+                    }
+                }
+            }
+        }
+        std::fs::write(dst.join(&n), &out).unwrap_or_else(|e| harness_fail(&e.to_string()));
+    }
+    // the result must still decode, with as many constants, and differ
+    let a = shipped::load(&args[0]).unwrap_or_else(|e| harness_fail(&e));
+    let parent = dst.parent().map(|p| p.display().to_string()).unwrap_or_default();
+    let b = shipped::load(&parent).unwrap_or_else(|e| harness_fail(&format!("altered data does not decode: {e}")));
+    let differing = a.constants.iter().zip(b.constants.iter()).filter(|(x, y)| shipped::canon(x) != shipped::canon(y)).count();
+    println!("mkdata: {altered} asset(s) altered in place (same names, same sizes), {} constants, {differing} differ", b.constants.len());
+    if altered == 0 || differing == 0 || a.constants.len() != b.constants.len() {
+        return 2;
+    }
+    0
+}
+
 fn main() {
     let o = parse_opts();
     let code = match o.cmd.as_str() {
         "run" => cmd_run(&o),
         "replay" => cmd_replay(&o),
         "determinism" => cmd_determinism(&o),
+        "mkdata" => cmd_mkdata(&o),
         _ => {
             eprintln!("usage: simctl run --prop <C14|C15|C16|C18|C19> [--tier quick|thorough] [--seed N] [--jobs N] | replay <file> | determinism --prop <id> [--runs N]");
             2
